@@ -23,9 +23,15 @@ CLAIMED = {
         "(MIR symbolic execution): lex_hex_number on '0x' + 1, 8, 16, 17 (18, 24) symbolic hex digits cannot panic at the u64 "
         "boundary of from_str_radix, and lex_url on a concrete URL prefix with 2 (3) fully symbolic characters at the end of its path, "
         "credential and port parts cannot panic; the comment wrappers Unit/Go/JsDoc::parse (stub inner parser) cannot panic on any "
-        "comment text of 3-4 (5-6) symbolic characters (kernel shared with C04).",
-        "Kernels only. Outside the claim: Markdown/HTML/Typst/Literate-Haskell/tree-sitter front-ends, Document::parse and its "
-        "condensing passes (Kani ICE on thread_local / memory), dictionary-dependent rules, lex_number's f64 parsing, "
+        "comment text of 3-4 (5-6) symbolic characters (kernel shared with C04). Rule sweep: for 47 of the 51 rules that "
+        "LintGroup::new_curated registers by name, the real <Rule as Linter>::lint - with the rule's own Pattern object built by "
+        "executing its real Default::default(), run_on_chunk and match_to_lint - is executed on every document of 2-3 (4) tokens "
+        "over {word, space, comma, newline} with symbolic letters and arbitrary, lazily decided dictionary metadata per word: the "
+        "rule returns normally (no panic / unreachable / failed bounds or overflow assert).",
+        "Kernels only. Outside the claim: real pulldown-cmark/HTML/Typst/Literate-Haskell/tree-sitter front-ends, documents longer "
+        "than the bounds, the table-driven rules (phrase corrections, compounds, proper nouns), four rules whose constructors are "
+        "too slow to execute (BackInTheDay, Hedging, OutOfDate, Oxymorons), SpellCheck / InflectedVerbAfterTo / "
+        "SentenceCapitalization, lex_number's f64 parsing, "
         "mark_inline_tags and PatternMap (Kani limitations, DESIGN.md). Unicode table look-ups are replaced by nondeterministic stubs "
         "(over-approximation). Trusted: Kani, CBMC, cadical, harness specs.",
         "DESIGN.md section 4, C01"),
@@ -60,9 +66,11 @@ CLAIMED = {
         "TokenStringExt::span is the tight in-bounds hull of its tokens. mirsym: the span rebasing of LintGroup::lint's clause cache "
         "(see C05) - cached lints land on the right characters when a clause recurs at another offset; the Markdown front-end places "
         "every token on the characters of its event for texts with multi-byte characters (kernel of C02), so token-hull lint spans "
-        "lie in the text.",
+        "lie in the text; rule sweep (see C01): every lint of 47 real rules satisfies start <= end <= text length on every "
+        "document of 2 (3) tokens with arbitrary word metadata.",
         "Edit primitive, span plumbing and the cache rebasing of LintGroup::lint (with stub rules). 'Each reported lint's span lies in "
-        "the text' is NOT decided for the ~290 real rules.",
+        "the text' is decided for 47 named rules on documents of 2 (3) tokens only (rule sweep, see C01), NOT for the ~230 "
+        "table-driven rules or longer documents.",
         "DESIGN.md section 4, C03"),
     "C04": (
         "Narrow kernel decided by MIR symbolic execution (mirsym, z3): the comment wrappers of harper-comments - Unit::parse, "
@@ -129,7 +137,9 @@ CLAIMED = {
         "(see C05): what a clause produces does not depend on where it sits or on what was linted before; and a lexing kernel: "
         "lex_email_address, lex_url, lex_hostname_token, lex_number and lex_hex_number give the same token for a paragraph followed by "
         "a blank line whatever 2 (3) characters follow the break; SpellCheck's suggestion cache (kernel of C05) does not carry one "
-        "word's suggestions over to another word of an earlier or later paragraph.",
+        "word's suggestions over to another word of an earlier or later paragraph; rule sweep in locality mode: for each of the 24 "
+        "directly implemented rules, the lints of P ++ blank line ++ D equal the lints of P followed by those of D shifted, for "
+        "every P of 2 tokens (ending in a period) and D of 2 tokens with symbolic letters and arbitrary word metadata.",
         "A narrow slice of C12: every rule's own index arithmetic, whole-document linters and the condensing passes' commutation "
         "with concatenation are outside.",
         "DESIGN.md section 4, C12"),
